@@ -75,6 +75,8 @@ def run(ctx):
     for _ in range(ctx.n(40, 400)):
         m = rng.randint(1, 7)
         s = np.sort(np.array([rng.choice([0.0, 0.125, 0.25, 0.5, 1.0, 2.0]) for _ in range(m)]))[::-1]
+        if s[0] == 0.0:
+            s[0] = 0.5          # all-zero spectra (cut-off -inf*0 = nan) belong to C10's exact model, not to this count
         D = rng.choice([1, 2, 3, 5, float("inf")])
         tot = rng.choice([float("-inf"), 0.0, 0.125, 0.3])
         k = int(np.sum(s > max(tot, float("-inf"))))
